@@ -1439,15 +1439,17 @@ class UserSessionManager(Service, discriminator="user-session-manager"):
         """
         return self._login(username=username, password=password, local=False, remote_ip_address=remote_ip_address)
 
-    def _logout(self, local: bool = True, remote_session_id: Optional[str] = None) -> bool:
+    def _logout(self, local: bool = True, remote_session_id: Optional[str] = None, forced: bool = False) -> bool:
         """
         Logs a user out either locally or remotely.
 
         :param local: Whether the logout is local or remote.
         :param remote_session_id: The remote session ID for remote logout.
+        :param forced: The session is revoked by the node (password change) rather than closed on the user's request:
+            it ends even if this service is currently not running.
         :return: True if logout successful, otherwise False.
         """
-        if not self._can_perform_action():
+        if not forced and not self._can_perform_action():
             return False
         session = None
         if local and self.local_session:
@@ -1490,9 +1492,9 @@ class UserSessionManager(Service, discriminator="user-session-manager"):
             user = self._user_manager.users[user]  # grab user object from username
         logged_out = False
         for sess_id in [sess_id for sess_id, session in self.remote_sessions.items() if session.user is user]:
-            logged_out = self._logout(local=False, remote_session_id=sess_id) or logged_out
+            logged_out = self._logout(local=False, remote_session_id=sess_id, forced=True) or logged_out
         if self.local_user_logged_in and self.local_session.user is user:
-            logged_out = self.local_logout() or logged_out
+            logged_out = self._logout(local=True, forced=True) or logged_out
         return logged_out
 
     @property
